@@ -1,50 +1,594 @@
-import MqttVerif.Conn.Lemmas.Basic
-import MqttVerif.Props.C20
+import MqttVerif.Conn.Lemmas.PidsStore
 /-!
-# C08 — packet identifiers (first instalment)
+# C08 — packet identifiers: unique while in use, released exactly once, never leaked
 
-The allocator behind `acquire/register/release` is the one proved in `Props/C20.lean` to be a
-set of free integers for every range and operation sequence; here: the announcement
-discipline of `release_if_used` and totality of the id-management calls.
+Statement (properties.jsonl): an identifier handed out by acquire is never handed out again,
+and cannot be registered, while it is in use; every identifier from 1 to the type's maximum
+can be in use simultaneously and exhaustion is reported as an error.  The library announces a
+release exactly when it turns an in-use identifier free — never for a free identifier and
+never twice — when the exchange owning it completes, when a send carrying it is refused, and
+for every non-persistent in-flight exchange when the connection closes; the only unannounced
+change is the wholesale reset of all identifiers when a new session starts; id-management
+calls are total for every id value including 0.
+
+Model: `step cfg s op` (`Conn/Step.lean`).  All theorems hold for **every** configuration with
+a non-empty id range (`1 ≤ cfg.idMax`, in particular `cfg.pw = 2` and `cfg.pw = 4`), every
+state satisfying the invariant `PidWf` (which holds initially and is preserved by every
+operation, for arbitrary peer bytes and parser results), every operation.
 -/
 set_option linter.unusedSimpArgs false
 set_option linter.unusedVariables false
 namespace MqttVerif.Conn
 open MqttVerif
 
-/-- a release is announced exactly when the identifier is in use, and then exactly once -/
-theorem C08_releaseIfUsed_announces (c : C) (id : Nat) :
-    (isUsed c.s id = true → (releaseIfUsed c id).ev = c.ev ++ [.released id]) ∧
-    (isUsed c.s id = false → releaseIfUsed c id = c) := by
-  unfold releaseIfUsed releaseId
+/-! ## 0. the id range -/
+
+theorem Cfg.idMax_pos_of_pw {cfg : Cfg} (h : 1 ≤ cfg.pw) : 1 ≤ cfg.idMax := by
+  have : 256 ^ 1 ≤ 256 ^ cfg.pw := Nat.pow_le_pow_right (by omega) h
+  unfold Cfg.idMax; omega
+
+/-- u16 and u32 identifiers -/
+theorem Cfg.idMax_pos {cfg : Cfg} (h : cfg.pw = 2 ∨ cfg.pw = 4) : 1 ≤ cfg.idMax :=
+  Cfg.idMax_pos_of_pw (by omega)
+
+/-! ## 1. allocator well-formedness is an invariant; the id calls are total -/
+
+theorem C08_wf_init (cfg : Cfg) (ver : Nat) (h : 1 ≤ cfg.idMax) : PidWf cfg (St.init cfg ver) :=
+  Alloc.W_new h
+
+theorem C08_wf_step {cfg : Cfg} {s : St} (h : 1 ≤ cfg.idMax) (w : PidWf cfg s) (op : Op) :
+    PidWf cfg (step cfg s op).s := by
+  have hw : Wf { cfg := cfg, s := s } := ⟨h, w⟩
+  have := (step_wf hw op).2
+  rwa [step_cfg hw op] at this
+
+theorem C08_wf_run {cfg : Cfg} (h : 1 ≤ cfg.idMax) (ops : List Op) :
+    ∀ {s : St}, PidWf cfg s → PidWf cfg (run cfg s ops) := by
+  induction ops with
+  | nil => intro s w; exact w
+  | cons op ops ih => intro s w; exact ih (C08_wf_step h w op)
+
+theorem C08_wf_reachable {cfg : Cfg} (h : 1 ≤ cfg.idMax) {ver : Nat} {s : St}
+    (r : Reachable cfg ver s) : PidWf cfg s := by
+  obtain ⟨ops, rfl⟩ := r
+  exact C08_wf_run h ops (C08_wf_init cfg ver h)
+
+/-- every id in use lies in `[1, idMax]`: `0 ∉ used`, nothing above the maximum -/
+theorem C08_used_in_range {cfg : Cfg} {s : St} (w : PidWf cfg s) {id : Nat} (hu : isUsed s id = true) :
+    1 ≤ id ∧ id ≤ cfg.idMax := w.w.isUsed_range hu
+
+/-- **idcalls_total**: `acquire`, `register id`, `release id` never panic — for every id value,
+    including 0 and values above the maximum (finding #6 on the pinned tree: `release 0`
+    panicked).  They change nothing but the allocator (and `release` pushes one event). -/
+theorem C08_idcalls_total {cfg : Cfg} {s : St} (h : 1 ≤ cfg.idMax) (w : PidWf cfg s) :
+    (step cfg s .acquire).s.panic = s.panic ∧
+    (∀ id, (step cfg s (.register id)).s.panic = s.panic) ∧
+    (∀ id, (step cfg s (.release id)).s.panic = s.panic) := by
+  refine ⟨rfl, fun _ => rfl, fun id => ?_⟩
+  have hw : Wf { cfg := cfg, s := s } := ⟨h, w⟩
+  show (releaseIfUsed { cfg := cfg, s := s } id).s.panic = s.panic
+  rw [releaseIfUsed_s _ hw id]
+
+/-- along any operation sequence consisting of id calls only, from any well-formed state,
+    there is never a panic -/
+theorem C08_idcalls_total_run {cfg : Cfg} (h : 1 ≤ cfg.idMax) (ops : List Op)
+    (hops : ∀ op ∈ ops, op = .acquire ∨ (∃ id, op = .register id) ∨ (∃ id, op = .release id)) :
+    ∀ {s : St}, PidWf cfg s → (run cfg s ops).panic = s.panic := by
+  induction ops with
+  | nil => intro s w; rfl
+  | cons op ops ih =>
+    intro s w
+    have t := C08_idcalls_total h w
+    have := ih (fun o ho => hops o (List.mem_cons_of_mem _ ho)) (C08_wf_step h w op)
+    simp only [run, this]
+    rcases hops op (List.mem_cons_self) with rfl | ⟨id, rfl⟩ | ⟨id, rfl⟩
+    · exact t.1
+    · exact t.2.1 id
+    · exact t.2.2 id
+
+/-! ## 2. acquire / register -/
+
+/-- **acquire_fresh**: `acquire` returns only an id that was not in use (and in range);
+    afterwards exactly that id has been added to the ids in use. -/
+theorem C08_acquire_fresh {cfg : Cfg} {s : St} (w : PidWf cfg s) {id : Nat}
+    (ha : (acquire { cfg := cfg, s := s }).1 = some id) :
+    isUsed s id = false ∧ 1 ≤ id ∧ id ≤ cfg.idMax ∧
+      ∀ x, isUsed (step cfg s .acquire).s x = true ↔ (isUsed s x = true ∨ x = id) := by
+  obtain ⟨a, b, c, _, e⟩ := w.w.alloc_some ha
+  exact ⟨a, b, c, e⟩
+
+/-- **exhaustion**: `acquire` fails (`PacketIdentifierFullyUsed`) exactly when every id of
+    `[1, idMax]` is in use; the state is then unchanged. -/
+theorem C08_exhaustion {cfg : Cfg} {s : St} (w : PidWf cfg s) :
+    ((acquire { cfg := cfg, s := s }).1 = none ↔ ∀ id, 1 ≤ id → id ≤ cfg.idMax → isUsed s id = true) ∧
+    ((acquire { cfg := cfg, s := s }).1 = none → (step cfg s .acquire).s = s) := by
+  refine ⟨⟨fun h => (w.w.alloc_none h).2, fun h => ?_⟩, fun h => ?_⟩
+  · cases ha : (acquire { cfg := cfg, s := s }).1 with
+    | none => rfl
+    | some v =>
+      obtain ⟨a, b, c, _⟩ := w.w.alloc_some ha
+      have := h v b c
+      simp [isUsed] at this a; simp_all
+  · have := (w.w.alloc_none h).1
+    show ({ s with pidMan := (Alloc.allocate s.pidMan).2 } : St) = s
+    rw [this]
+
+/-- **register_iff_free**: `register id` succeeds iff `id` is in range and not in use;
+    afterwards the ids in use are the old ones plus `id` (when it succeeded). -/
+theorem C08_register_iff_free {cfg : Cfg} {s : St} (w : PidWf cfg s) (id : Nat) :
+    ((register { cfg := cfg, s := s } id).1 = true ↔ (1 ≤ id ∧ id ≤ cfg.idMax ∧ isUsed s id = false)) ∧
+    (∀ x, isUsed (step cfg s (.register id)).s x = true ↔
+      (isUsed s x = true ∨ ((register { cfg := cfg, s := s } id).1 = true ∧ x = id))) := by
+  obtain ⟨a, _, c⟩ := w.w.use id
+  exact ⟨a, c⟩
+
+/-- an id in use is never handed out again, and cannot be registered -/
+theorem C08_used_not_reissued {cfg : Cfg} {s : St} (w : PidWf cfg s) {id : Nat} (hu : isUsed s id = true) :
+    (acquire { cfg := cfg, s := s }).1 ≠ some id ∧ (register { cfg := cfg, s := s } id).1 = false := by
   constructor
-  · intro h; simp only [h, if_true]; split <;> simp [C.setPanic]
-  · intro h; simp [h]
+  · intro ha
+    have := (C08_acquire_fresh w ha).1
+    simp_all
+  · cases hr : (register { cfg := cfg, s := s } id).1 with
+    | false => rfl
+    | true => have := ((C08_register_iff_free w id).1.1 hr).2.2; simp_all
 
-/-- the id-management calls never touch an identifier outside `[1, max]`: "in use" implies in
-    range (fix, finding #6), so `release_packet_id(0)` is a no-op instead of a panic -/
-theorem C08_out_of_range_is_free (s : St) (id : Nat)
-    (h : id < s.pidMan.lowest ∨ s.pidMan.highest < id) : isUsed s id = false :=
-  Alloc.C20_isUsed_out_of_range s.pidMan id h
+theorem run_append (cfg : Cfg) (s : St) (a b : List Op) : run cfg s (a ++ b) = run cfg (run cfg s a) b := by
+  induction a generalizing s with
+  | nil => rfl
+  | cons op a ih => simp only [List.cons_append, run, ih]
 
-theorem C08_release_zero_noop (cfg : Cfg) (ver : Nat) :
-    (step cfg (St.init cfg ver) (.release 0)).ev = [] ∧
-    (step cfg (St.init cfg ver) (.release 0)).s = St.init cfg ver := by
-  have h : isUsed (St.init cfg ver) 0 = false :=
-    C08_out_of_range_is_free _ 0 (Or.inl (by simp [St.init, Alloc.new]))
-  simp [step, releasePacketId, releaseIfUsed, h]
+/-- **all ids usable simultaneously**: for every `n ≤ idMax` the `n` calls
+    `register 1 … register n` on a fresh connection all succeed and leave exactly the ids
+    `1..n` in use — with `n = idMax` every identifier of the type is in use at once (and then
+    `acquire` reports exhaustion, `C08_exhaustion`). -/
+theorem C08_all_ids_usable (cfg : Cfg) (ver : Nat) (h : 1 ≤ cfg.idMax) (n : Nat) (hn : n ≤ cfg.idMax) :
+    let s := run cfg (St.init cfg ver) ((List.range n).map (fun k => Op.register (k + 1)))
+    (∀ id, isUsed s id = true ↔ (1 ≤ id ∧ id ≤ n)) ∧
+    (n = cfg.idMax → (acquire { cfg := cfg, s := s }).1 = none) := by
+  have key : ∀ n, n ≤ cfg.idMax →
+      PidWf cfg (run cfg (St.init cfg ver) ((List.range n).map (fun k => Op.register (k + 1)))) ∧
+      ∀ id, isUsed (run cfg (St.init cfg ver) ((List.range n).map (fun k => Op.register (k + 1)))) id = true ↔
+        (1 ≤ id ∧ id ≤ n) := by
+    intro n
+    induction n with
+    | zero =>
+      intro _
+      refine ⟨C08_wf_init cfg ver h, fun id => ?_⟩
+      have : isUsed (St.init cfg ver) id = false := Alloc.new_isUsed _ _
+      simp only [List.range_zero, List.map_nil, run, this]
+      constructor
+      · intro h; simp at h
+      · intro h; omega
+    | succ n ih =>
+      intro hn
+      obtain ⟨w, u⟩ := ih (by omega)
+      rw [List.range_succ, List.map_append, run_append]
+      simp only [List.map_cons, List.map_nil, run]
+      refine ⟨C08_wf_step h w _, fun id => ?_⟩
+      obtain ⟨r1, r2⟩ := C08_register_iff_free w (n + 1)
+      have hfree : isUsed (run cfg (St.init cfg ver) ((List.range n).map (fun k => Op.register (k + 1)))) (n + 1) = false := by
+        cases hc : isUsed (run cfg (St.init cfg ver) ((List.range n).map (fun k => Op.register (k + 1)))) (n + 1) with
+        | false => rfl
+        | true => have := (u (n + 1)).1 hc; omega
+      have hok := r1.2 ⟨by omega, hn, hfree⟩
+      rw [r2 id, u id]
+      simp only [hok, true_and]
+      omega
+  obtain ⟨w, u⟩ := key n hn
+  refine ⟨u, fun e => ?_⟩
+  exact (C08_exhaustion w).1.2 (fun id h1 h2 => (u id).2 ⟨h1, by omega⟩)
 
-/-- releasing an in-use, in-range identifier never panics and frees exactly it -/
-theorem C08_release_used_no_panic (c : C) (id : Nat) (s' : Alloc.S) (r : Alloc.R c.s.pidMan s')
-    (hu : isUsed c.s id = true) (hp : c.s.panic = none) :
-    (releaseIfUsed c id).s.panic = none := by
-  have hr : c.s.pidMan.lowest ≤ id ∧ id ≤ c.s.pidMan.highest := by
-    simp only [isUsed, Alloc.isUsed, Bool.and_eq_true, decide_eq_true_eq] at hu
-    exact ⟨hu.1.1, hu.1.2⟩
-  have := Alloc.C20_release_total r id hr
-  simp [releaseIfUsed, hu, releaseId, this, hp]
+/-! ## 3. announcements: released exactly when an in-use id turns free -/
 
-example : isUsed (St.init ⟨.client, 2⟩ 5) 0 = false ∧ isUsed (St.init ⟨.client, 2⟩ 5) 65536 = false := by
-  constructor <;> decide
+/-- **release_exact.**  For every operation, with `rel` the ids announced by
+    `NotifyPacketIdReleased` events of the call:
+    (a) no duplicates; (b) each was in use before; (c) each is free afterwards;
+    (d) unless the call starts a new session, an id in use before and free afterwards is in
+        `rel`;
+    (e) if the call starts a new session, no id is in use afterwards (the wholesale reset);
+    (f) apart from `acquire` / `register` / `restorePackets` (which announce nothing and free
+        nothing) no call makes an id used. -/
+theorem C08_release_exact {cfg : Cfg} {s : St} (h : 1 ≤ cfg.idMax) (w : PidWf cfg s) (op : Op) :
+    let rel := Mon.releasedIds (step cfg s op).ev
+    let s' := (step cfg s op).s
+    rel.Nodup ∧
+    (∀ id ∈ rel, isUsed s id = true) ∧
+    (∀ id ∈ rel, isUsed s' id = false) ∧
+    (startsNewSession cfg s op = false → ∀ id, isUsed s id = true → isUsed s' id = false → id ∈ rel) ∧
+    (startsNewSession cfg s op = true → ∀ id, isUsed s' id = false) ∧
+    (takesIds op = false → ∀ id, isUsed s' id = true → isUsed s id = true) ∧
+    (takesIds op = true → rel = [] ∧ ∀ id, isUsed s id = true → isUsed s' id = true) := by
+  have hw : Wf { cfg := cfg, s := s } := ⟨h, w⟩
+  cases hg : takesIds op with
+  | false =>
+    obtain ⟨_, _, r, e, a2, a3, a4, a5, a6⟩ := step_eff hw op hg
+    simp only [Mon.releasedIds, List.nil_append] at e
+    simp only [e]
+    refine ⟨a2, fun id hm => (a3 id hm).1, fun id hm => (a3 id hm).2, ?_, a6, fun _ => a4, by simp⟩
+    intro hb id hu hf
+    cases hd : decide (id ∈ r) with
+    | true => exact of_decide_eq_true hd
+    | false => have := a5 hb id hu (of_decide_eq_false hd); simp_all
+  | true =>
+    obtain ⟨_, _, e, m⟩ := step_grow hw op hg
+    simp only [Mon.releasedIds] at e
+    have hs : startsNewSession cfg s op = false := by cases op <;> simp_all [takesIds, startsNewSession]
+    simp only [e, hs]
+    refine ⟨List.nodup_nil, by simp, by simp, ?_, by simp, by simp, fun _ => ⟨trivial, m⟩⟩
+    intro _ id hu hf
+    have := m id hu; simp_all
+
+/-- a free id stays free, and is never announced, as long as no id-taking call
+    (`acquire` / `register` / `restorePackets`) is made -/
+theorem C08_free_stays_free {cfg : Cfg} (h : 1 ≤ cfg.idMax) (ops : List Op)
+    (hno : ∀ o ∈ ops, takesIds o = false) {id : Nat} :
+    ∀ {s : St}, PidWf cfg s → isUsed s id = false →
+      isUsed (run cfg s ops) id = false ∧ ∀ evs ∈ runEvents cfg s ops, id ∉ Mon.releasedIds evs := by
+  induction ops with
+  | nil => intro s w hf; exact ⟨hf, by simp [runEvents]⟩
+  | cons op ops ih =>
+    intro s w hf
+    obtain ⟨_, b, _, _, _, f, _⟩ := C08_release_exact h w op
+    have hop := hno op List.mem_cons_self
+    have hf' : isUsed (step cfg s op).s id = false := by
+      cases hc : isUsed (step cfg s op).s id with
+      | false => rfl
+      | true => have := f hop id hc; simp_all
+    obtain ⟨r1, r2⟩ := ih (fun o ho => hno o (List.mem_cons_of_mem _ ho)) (C08_wf_step h w op) hf'
+    refine ⟨r1, ?_⟩
+    intro evs hm
+    simp only [runEvents, List.mem_cons] at hm
+    rcases hm with rfl | hm
+    · intro hin; have := b id hin; simp_all
+    · exact r2 evs hm
+
+/-- **never twice**: once an id has been announced as released it is not announced again by
+    any later call — until the application takes it again. -/
+theorem C08_released_once {cfg : Cfg} {s : St} (h : 1 ≤ cfg.idMax) (w : PidWf cfg s) (op : Op)
+    (ops : List Op) (hno : ∀ o ∈ ops, takesIds o = false) {id : Nat}
+    (hr : id ∈ Mon.releasedIds (step cfg s op).ev) :
+    ∀ evs ∈ runEvents cfg (step cfg s op).s ops, id ∉ Mon.releasedIds evs :=
+  (C08_free_stays_free h ops hno (C08_wf_step h w op) ((C08_release_exact h w op).2.2.1 id hr)).2
+
+/-! ## 5. when releases are announced -/
+
+/-- **release_on_completion.**  A PUBACK / PUBCOMP / failing PUBREC (the model releases for
+    every non-success reason code of a v5.0 PUBREC) / SUBACK / UNSUBACK that is delivered to
+    its handler, parses, and whose id is in the corresponding wait set: the call announces
+    exactly that id if it is in use (and nothing if it is not). -/
+theorem C08_release_on_completion {cfg : Cfg} {s : St} {inp : List Nat}
+    {parse : Nat → Nat → List Nat → Except Nat Pkt} {t : Nat} {p : Pkt}
+    (d : Delivers cfg s inp parse t (.ok p))
+    (hm : (t = 4 ∧ p.pid.getD 0 ∈ s.puback) ∨ (t = 7 ∧ p.pid.getD 0 ∈ s.pubcomp) ∨
+          (t = 5 ∧ p.pid.getD 0 ∈ s.pubrec ∧ ¬ (p.ver = 4 ∨ p.rc = none ∨ p.rc = some 0)) ∨
+          (t = 9 ∧ p.pid.getD 0 ∈ s.suback) ∨ (t = 11 ∧ p.pid.getD 0 ∈ s.unsuback)) :
+    Mon.releasedIds (step cfg s (.recv inp parse)).ev =
+      if isUsed s (p.pid.getD 0) = true then [p.pid.getD 0] else [] := by
+  obtain ⟨pb, e⟩ := step_recv_delivers d
+  rw [e]
+  rcases hm with ⟨rfl, hm⟩ | ⟨rfl, hm⟩ | ⟨rfl, hm, hf⟩ | ⟨rfl, hm⟩ | ⟨rfl, hm⟩
+  · exact prPuback_rel { cfg := cfg, s := { s with pb := pb } } p hm
+  · exact prPubcomp_rel { cfg := cfg, s := { s with pb := pb } } p hm
+  · exact prPubrec_rel { cfg := cfg, s := { s with pb := pb } } p hm hf
+  · exact prSuback_rel { cfg := cfg, s := { s with pb := pb } } p hm
+  · exact prUnsuback_rel { cfg := cfg, s := { s with pb := pb } } p hm
+
+/-- **release_on_refusal.**  A `send` of a QoS>0 PUBLISH, SUBSCRIBE or UNSUBSCRIBE carrying an
+    in-use id that passes the version and role checks and is answered with a `NotifyError`
+    announces exactly that id.  The refusal reasons covered (all that exist for these packets
+    once the id is in use): v3.1.1/v5.0 PUBLISH not allowed in the current status
+    (`PacketNotAllowedToSend`); v5.0 PUBLISH / SUBSCRIBE / UNSUBSCRIBE larger than the peer's
+    Maximum Packet Size (`PacketTooLarge`); v5.0 PUBLISH over the peer's Receive Maximum
+    (`ReceiveMaximumExceeded`); v5.0 PUBLISH with an unusable Topic Alias (empty topic and
+    unknown / out-of-range alias, or alias out of range) (`PacketNotAllowedToSend`);
+    SUBSCRIBE / UNSUBSCRIBE while not connected. -/
+theorem C08_release_on_refusal {cfg : Cfg} {s : St} (p : Pkt) (id : Nat)
+    (hv : s.ver = p.ver) (hr : roleMaySend cfg.role p = true)
+    (hk : (p.kind = .publish ∧ p.qos > 0) ∨ p.kind = .subscribe ∨ p.kind = .unsubscribe)
+    (hp : p.pid = some id) (hu : isUsed s id = true)
+    (he : errs (step cfg s (.send p)).ev ≠ []) :
+    Mon.releasedIds (step cfg s (.send p)).ev = [id] := by
+  have key : Refuse { cfg := cfg, s := s } (step cfg s (.send p)) id := by
+    simp only [step, send, hv, ne_eq, not_true_eq_false, if_false, hr, Bool.not_true, Bool.false_eq_true]
+    unfold processSend
+    rcases hk with ⟨hk, hq⟩ | hk | hk
+    · by_cases h4 : p.ver = 4 <;> simp only [h4, if_true, if_false, hk]
+      · exact psV3Publish_refuse _ p id hq hp hu
+      · exact psV5Publish_refuse _ p id hq hp hu
+    · by_cases h4 : p.ver = 4 <;> simp only [h4, if_true, if_false, hk] <;>
+        exact psSubUnsub_refuse _ p id hp hu
+    · by_cases h4 : p.ver = 4 <;> simp only [h4, if_true, if_false, hk] <;>
+        exact psSubUnsub_refuse _ p id hp hu
+  rcases key with k | k
+  · exact absurd k he
+  · simpa [Mon.releasedIds] using k
+
+/-- Refusals that do **not** release (the id stays in use, nothing is announced): version
+    mismatch, role check, and every refusal of a PUBREL (too large, not allowed —
+    finding #23).  (`PacketIdentifierInvalid` cannot release: the id is not in use.) -/
+theorem C08_refusal_without_release {cfg : Cfg} {s : St} (p : Pkt)
+    (hk : s.ver ≠ p.ver ∨ roleMaySend cfg.role p = false ∨ p.kind = .pubrel) :
+    Mon.releasedIds (step cfg s (.send p)).ev = [] ∧
+      ∀ id, isUsed (step cfg s (.send p)).s id = isUsed s id := by
+  have q : Quiet { cfg := cfg, s := s } (step cfg s (.send p)) := by
+    simp only [step, send]
+    rcases hk with hk | hk | hk
+    · simp only [hk, ne_eq, not_false_eq_true, if_true]; quiet_tac
+    · split
+      · quiet_tac
+      · simp only [hk, Bool.not_false, if_true]; quiet_tac
+    · split
+      · quiet_tac
+      split
+      · quiet_tac
+      · unfold processSend
+        split <;> simp only [hk] <;> exact psPubrel_q _ _
+  exact ⟨by simpa [Mon.releasedIds] using q.2.2, fun id => isUsed_congr q.2.1 id⟩
+
+/-- **release_on_close.**  `notify_closed` announces every in-use id of `suback ∪ unsuback`,
+    and — when the session is not persistent (`¬ needStore`) — every in-use id of
+    `puback ∪ pubrec ∪ pubcomp`. -/
+theorem C08_release_on_close {cfg : Cfg} {s : St} (h : 1 ≤ cfg.idMax) (w : PidWf cfg s) {id : Nat}
+    (hm : id ∈ s.suback ∨ id ∈ s.unsuback ∨
+      (s.needStore = false ∧ (id ∈ s.puback ∨ id ∈ s.pubrec ∨ id ∈ s.pubcomp)))
+    (hu : isUsed s id = true) :
+    id ∈ Mon.releasedIds (step cfg s .closed).ev := by
+  have hw : Wf { cfg := cfg, s := s } := ⟨h, w⟩
+  have hf : isUsed (step cfg s .closed).s id = false := notifyClosed_free hw hm
+  exact (C08_release_exact h w .closed).2.2.2.1 rfl id hu hf
+
+/-! ## 4. the ownership invariant `PidInv` — what holds and what does not
+
+`PidInv s` (`Conn/Lemmas/PidsInv.lean`): (i) every id of a wait set is in use, (ii) every
+stored packet's id is in use, (iii) store ids are pairwise distinct.  It holds initially.
+(iii) is an unconditional invariant (`C08_store_ids_distinct`).  (i)+(ii) are **not**
+preserved by arbitrary peer input: see `C08_PidInv_step_full_false` and the witnesses below. -/
+
+theorem C08_PidInv_init (cfg : Cfg) (ver : Nat) : PidInv (St.init cfg ver) := by
+  refine ⟨by simp [waitIds, St.init], by simp [St.init], by simp [St.init]⟩
+
+/-- **(iii) holds unconditionally**: store ids are pairwise distinct initially and after every
+    operation — every `send`, arbitrary `recv` bytes / parser results, `restorePackets` of any
+    list — with no hypothesis at all (`store.add` refuses a duplicate: it is then the panic
+    site `store.add().unwrap()`, and the state is unchanged). -/
+theorem C08_store_ids_distinct_step {cfg : Cfg} {s : St} (hs : (s.store.map (·.1)).Nodup) (op : Op) :
+    ((step cfg s op).s.store.map (·.1)).Nodup := step_kn hs op
+
+theorem C08_store_ids_distinct {cfg : Cfg} {ver : Nat} {s : St} (r : Reachable cfg ver s) :
+    (s.store.map (·.1)).Nodup := by
+  obtain ⟨ops, rfl⟩ := r
+  suffices ∀ (ops : List Op) (s : St), (s.store.map (·.1)).Nodup → ((run cfg s ops).store.map (·.1)).Nodup from
+    this ops _ (by simp [St.init])
+  intro ops
+  induction ops with
+  | nil => intro s h; exact h
+  | cons op ops ih => intro s h; exact ih _ (C08_store_ids_distinct_step h op)
+
+/-- legality of an application call with respect to identifiers (no condition on `recv`, none
+    on `restorePackets`): an id that is released by hand, or carried by a sent PUBLISH /
+    SUBSCRIBE / UNSUBSCRIBE, is not owned by another exchange or stored packet (if it is,
+    `release`, resp. every refusal path of the send, frees it under its owner:
+    `witness_release_owned`). -/
+def LegalOp (s : St) : Op → Prop
+  | .release id => ¬ owned s id
+  | .send p => (p.kind = .publish ∨ p.kind = .subscribe ∨ p.kind = .unsubscribe) → ¬ owned s (p.pid.getD 0)
+  | _ => True
+
+/-- the full inductive statement asked for -/
+def C08_PidInv_step_full : Prop :=
+  ∀ (cfg : Cfg) (s : St) (op : Op), 1 ≤ cfg.idMax → PidWf cfg s → PidInv s → LegalOp s op →
+    PidInv (step cfg s op).s
+
+/-- **restorePackets keeps the ownership invariant for ANY packet list** (duplicate ids, id 0,
+    ids above the maximum, ids already in use): finding #24 is fixed — the wait-set entry and
+    the store entry are made only for a packet whose id could be registered. -/
+theorem C08_PidInv_restorePackets {cfg : Cfg} {s : St} (h : 1 ≤ cfg.idMax) (w : PidWf cfg s)
+    (i : PidInv s) (ps : List Pkt) : PidInv (step cfg s (.restorePackets ps)).s :=
+  restorePackets_inv ps { cfg := cfg, s := s } ⟨h, w⟩ i
+
+/-- the ops for which preservation is proved: the id calls (with legality for `release`),
+    `restorePackets` (any list), timers and settings, and `notify_closed` of a non-persistent
+    session -/
+def simpleOp (s : St) : Op → Bool
+  | .acquire | .register _ | .release _ | .timer _ | .setInterval _ | .setFlag _ _
+  | .setRespTimeout _ | .restoreHandled _ | .restorePackets _ => true
+  | .closed => !s.needStore
+  | _ => false
+
+theorem C08_PidInv_step_partial {cfg : Cfg} {s : St} (h : 1 ≤ cfg.idMax) (w : PidWf cfg s)
+    (i : PidInv s) (op : Op) (hs : simpleOp s op = true) (hl : LegalOp s op) :
+    PidInv (step cfg s op).s := by
+  have hw : Wf { cfg := cfg, s := s } := ⟨h, w⟩
+  have same : ∀ {c' : C}, Still { cfg := cfg, s := s } c' → c'.s.pidMan = s.pidMan → PidInv c'.s :=
+    fun st hp => PidInv.of_still (c := { cfg := cfg, s := s }) i st
+      (fun id _ hu => by rw [isUsed_congr hp]; exact hu)
+  cases op with
+  | acquire =>
+    exact PidInv.of_still (c := { cfg := cfg, s := s }) i ⟨rfl, rfl, rfl, rfl, rfl, rfl⟩
+      (fun id _ hu => (acquire_grow hw).mono id hu)
+  | register id =>
+    exact PidInv.of_still (c := { cfg := cfg, s := s }) i ⟨rfl, rfl, rfl, rfl, rfl, rfl⟩
+      (fun x _ hu => (register_grow hw id).mono x hu)
+  | release id =>
+    refine PidInv.of_still (c := { cfg := cfg, s := s }) i (releaseIfUsed_still hw id) ?_
+    intro x ho hu
+    exact releaseIfUsed_keeps hw (fun e => hl (e ▸ ho)) hu
+  | timer k => exact same (notifyTimerFired_still _ k) (notifyTimerFired_q _ k).2.1
+  | setInterval d => exact same (setPingreqSendInterval_still _ d) (setPingreqSendInterval_q _ d).2.1
+  | setFlag f b => exact same (by cases f <;> exact ⟨rfl, rfl, rfl, rfl, rfl, rfl⟩) (by cases f <;> rfl)
+  | setRespTimeout ms => exact same ⟨rfl, rfl, rfl, rfl, rfl, rfl⟩ rfl
+  | restoreHandled ids => exact same ⟨rfl, rfl, rfl, rfl, rfl, rfl⟩ rfl
+  | closed =>
+    simp only [simpleOp, Bool.not_eq_true'] at hs
+    obtain ⟨e1, e2⟩ := notifyClosed_nonpersistent hw hs
+    show PidInv (notifyClosed _).s
+    unfold PidInv
+    rw [e1, e2]
+    exact ⟨by simp, by simp, by simp⟩
+  | send p => simp [simpleOp] at hs
+  | recv a b => simp [simpleOp] at hs
+  | erase id => simp [simpleOp] at hs
+  | restorePackets ps => exact C08_PidInv_restorePackets h w i ps
+
+/-! ### witnesses (all `decide`-checked on states reached from `St.init` by `run`) -/
+namespace W
+def cfgC : Cfg := { role := .client, pw := 2 }
+def okp (p : Pkt) : Nat → Nat → List Nat → Except Nat Pkt := fun _ _ _ => .ok p
+def connect5 : Pkt := { ver := 5, kind := .connect, size := 20, props := [(pSEI, 100)] }
+def connack5 (sp : Bool) (props : List (Nat × Nat)) : Pkt :=
+  { ver := 5, kind := .connack, size := 8, rc := some 0, sp := sp, props := props }
+def pub1 : Pkt := { ver := 5, kind := .publish, pid := some 1, qos := 1, topic := [97], payloadLen := 100 }
+def sub1 : Pkt := { ver := 5, kind := .subscribe, pid := some 1, size := 10 }
+def puback (v id : Nat) : Pkt := { ver := v, kind := .puback, pid := some id, size := 4 }
+def pubrel1 : Pkt := { ver := 5, kind := .pubrel, pid := some 1, size := 4 }
+def disc5 : Pkt := { ver := 5, kind := .disconnect, size := 2 }
+def pq (q id : Nat) : Pkt := { ver := 5, kind := .publish, pid := some id, qos := q, topic := [97] }
+def connackBytes : List Nat := [0x20, 3, 0, 0, 0]
+def pubackBytes : List Nat := [0x40, 2, 0, 1]
+def s0 : St := St.init cfgC 5
+
+/-- client, persistent session, connected, QoS 1 PUBLISH id 1 in flight and stored, connection
+    closed, CONNECT sent again -/
+def opsA : List Op :=
+  [.send connect5, .recv connackBytes (okp (connack5 false [])), .acquire, .send pub1, .closed,
+   .send connect5]
+def sA : St := run cfgC s0 opsA
+/-- the broker resumes the session, announcing Maximum Packet Size 20 -/
+def opA : Op := .recv connackBytes (okp (connack5 true [(pMPS, 20)]))
+end W
+open W
+
+/-- `send_stored` dropping an oversize stored packet (found independently here and by the C05
+    proof; fixed in /repo 08017c0 and in the model): on resume the packet is dropped, its id
+    released and announced, **and** — since the fix — removed from `pid_puback` / `pid_pubrec` /
+    `pid_pubcomp`.  Before the fix the id stayed awaited: a later re-acquisition for a
+    SUBSCRIBE plus a late PUBACK released it under the SUBSCRIBE. -/
+theorem witness_sendStored_drop_fixed :
+    PidWf cfgC sA ∧ PidInv sA ∧ sA.puback = [1] ∧ sA.store.length = 1 ∧
+    Mon.releasedIds (step cfgC sA opA).ev = [1] ∧
+    (step cfgC sA opA).s.puback = [] ∧ (step cfgC sA opA).s.store = [] ∧
+    isUsed (step cfgC sA opA).s 1 = false ∧ PidInv (step cfgC sA opA).s := by decide
+
+namespace W
+/-- connected client with SUBSCRIBE id 1 in flight sends DISCONNECT (`notify_closed` not yet called) -/
+def sD : St := run cfgC s0 [.send connect5, .recv connackBytes (okp (connack5 false [])), .acquire,
+  .send sub1, .send disc5]
+def opD : Op := .recv connackBytes (okp (connack5 false []))
+end W
+
+/-- the full statement is false: peer input needs no legality, the state is reachable by a legal
+    application and satisfies everything (witness: `witness_connack_while_disconnected`) -/
+theorem C08_PidInv_step_full_false : ¬ C08_PidInv_step_full := by
+  intro hfull
+  have := hfull cfgC sD opD (by decide) (by decide) (by decide) trivial
+  exact absurd this (by decide)
+
+/-- **finding (peer breaks (i))**: a CONNACK received while *disconnected* (after DISCONNECT
+    was sent, before `notify_closed`; also: never connected at all) is accepted, makes the
+    connection `connected` and resets all ids, while `pid_suback` still holds id 1: afterwards
+    id 1 is free and awaited, nothing was announced. -/
+theorem witness_connack_while_disconnected :
+    let s' := (step cfgC sD opD).s
+    PidWf cfgC sD ∧ PidInv sD ∧ sD.panic = none ∧ sD.status = .disconnected ∧
+      s'.status = .connected ∧ s'.suback = [1] ∧ isUsed s' 1 = false ∧
+      Mon.releasedIds (step cfgC sD opD).ev = [] ∧ ¬ PidInv s' := by decide
+
+/-- second way (a modelling artefact, not a defect): `recv` quantifies over arbitrary parser
+    results; a PUBACK *parsed as another protocol version* does not erase the stored packet
+    (`Store::erase` compares versions) yet releases the id: (ii) breaks.  A real parser for
+    version `v` returns version-`v` packets. -/
+theorem witness_foreign_version_ack :
+    let s := run cfgC s0 [.send connect5, .recv connackBytes (okp (connack5 false [])), .acquire, .send pub1]
+    let s' := (step cfgC s (.recv pubackBytes (okp (puback 4 1)))).s
+    PidInv s ∧ s'.store.length = 1 ∧ isUsed s' 1 = false := by decide
+
+/-- `release id` of an id owned by a wait set breaks (i): legality must exclude it. -/
+theorem witness_release_owned :
+    let s := run cfgC s0 [.send connect5, .recv connackBytes (okp (connack5 false [])), .acquire, .send sub1]
+    PidInv s ∧ s.suback = [1] ∧ ¬ PidInv (step cfgC s (.release 1)).s := by decide
+
+/-- finding #24 (fixed): a restored export with a duplicate id, id 0 and an id above the maximum
+    registers id 5 once (first entry wins: `puback`), ignores the rest, and keeps `PidInv`
+    (`C08_PidInv_restorePackets` proves this for every list). -/
+theorem witness_restore_fixed :
+    let s := (step cfgC s0 (.restorePackets [pq 1 5, pq 2 5, pq 1 0, pq 2 65536])).s
+    s.puback = [5] ∧ s.pubrec = [] ∧ s.store.length = 1 ∧ isUsed s 5 = true ∧ PidInv s := by decide
+
+/-- refusals that keep the id silently (cf. `C08_refusal_without_release`): version mismatch;
+    role (`Server` sending SUBSCRIBE); PUBREL while not connected and not persistent
+    (finding #23: afterwards id 1 is in use, owned by nobody, and survives `notify_closed`). -/
+theorem witness_silent_refusals :
+    let s1 := (step cfgC s0 .acquire).s
+    (step cfgC s1 (.send { sub1 with ver := 4 })).ev = [.error eVersionMismatch] ∧
+    (step { cfgC with role := .server } s1 (.send sub1)).ev = [.error eNotAllowed] ∧
+    (step cfgC s1 (.send pubrel1)).ev = [.error eNotAllowed] ∧
+    isUsed (run cfgC s1 [.send pubrel1, .closed]) 1 = true ∧
+    waitIds (run cfgC s1 [.send pubrel1, .closed]) = [] := by decide
+
+/-! ## 6. non-vacuity: concrete reachable states / inputs satisfying the hypotheses -/
+namespace W
+/-- connected client, SUBSCRIBE id 1 and QoS 1 PUBLISH id 2 in flight (the PUBLISH stored) -/
+def sB : St := run cfgC s0 [.send connect5, .recv connackBytes (okp (connack5 false [])), .acquire,
+  .send sub1, .acquire, .send { pub1 with pid := some 2 }]
+/-- an allocator `[1, 255]` (`pw = 1`) with every id handed out -/
+def cfg1 : Cfg := { role := .client, pw := 1 }
+def sFull : St := run cfg1 (St.init cfg1 4) (List.replicate 255 .acquire)
+end W
+
+example : W.cfgC.pw = 2 ∨ W.cfgC.pw = 4 := by decide
+example : 1 ≤ W.cfgC.idMax ∧ W.cfgC.idMax = 65535 := by decide
+/-- hypotheses of §1–§3: a well-formed reachable state with ids in use, wait sets and store non-empty -/
+example : Reachable W.cfgC 5 W.sB ∧ PidWf W.cfgC W.sB ∧ W.sB.suback = [1] ∧ W.sB.puback = [2] ∧
+    W.sB.store.length = 1 ∧ isUsed W.sB 1 = true ∧ isUsed W.sB 2 = true ∧ isUsed W.sB 3 = false :=
+  ⟨⟨_, rfl⟩, by decide⟩
+/-- `C08_acquire_fresh`: the next id is 3 -/
+example : (acquire { cfg := W.cfgC, s := W.sB }).1 = some 3 := by decide
+/-- `C08_exhaustion`: all 255 ids of a one-byte id type in use, `acquire` reports exhaustion,
+    and the id calls stay total there (0, max, max+1) -/
+example : PidWf W.cfg1 W.sFull ∧ (acquire { cfg := W.cfg1, s := W.sFull }).1 = none ∧
+    isUsed W.sFull 1 = true ∧ isUsed W.sFull 255 = true ∧ isUsed W.sFull 0 = false ∧
+    isUsed W.sFull 256 = false ∧
+    (step W.cfg1 W.sFull (.release 0)).s.panic = none ∧ (step W.cfg1 W.sFull (.release 255)).s.panic = none ∧
+    (step W.cfg1 W.sFull (.release 256)).s.panic = none ∧
+    (register { cfg := W.cfg1, s := W.sFull } 0).1 = false ∧
+    (register { cfg := W.cfg1, s := (step W.cfg1 W.sFull (.release 255)).s } 255).1 = true := by
+  decide +kernel
+/-- `C08_used_not_reissued` / `C08_register_iff_free` -/
+example : isUsed W.sB 2 = true ∧ (register { cfg := W.cfgC, s := W.sB } 2).1 = false ∧
+    (register { cfg := W.cfgC, s := W.sB } 7).1 = true ∧ (register { cfg := W.cfgC, s := W.sB } 0).1 = false ∧
+    (register { cfg := W.cfgC, s := W.sB } 65536).1 = false := by decide
+/-- `C08_release_exact` (d)/(e): a call that starts a new session, and one that does not -/
+example : startsNewSession W.cfgC (run W.cfgC W.sB [.closed]) (.send { W.connect5 with clean := true }) = true ∧
+    startsNewSession W.cfgC W.sB (.recv W.pubackBytes (W.okp (W.puback 5 2))) = false ∧
+    Mon.releasedIds (step W.cfgC W.sB (.recv W.pubackBytes (W.okp (W.puback 5 2)))).ev = [2] := by decide
+/-- `C08_released_once`: PUBACK 2 announces id 2; a second PUBACK 2 and a close announce it no more -/
+example : 2 ∈ Mon.releasedIds (step W.cfgC W.sB (.recv W.pubackBytes (W.okp (W.puback 5 2)))).ev ∧
+    (∀ o ∈ [Op.recv W.pubackBytes (W.okp (W.puback 5 2)), Op.closed], takesIds o = false) ∧
+    (runEvents W.cfgC (step W.cfgC W.sB (.recv W.pubackBytes (W.okp (W.puback 5 2)))).s
+      [Op.recv W.pubackBytes (W.okp (W.puback 5 2)), Op.closed]).map Mon.releasedIds = [[], [1]] := by
+  refine ⟨by decide, ?_, by decide⟩
+  intro o ho
+  simp only [List.mem_cons, List.not_mem_nil, or_false] at ho
+  rcases ho with rfl | rfl <;> rfl
+/-- `C08_release_on_completion`: a PUBACK for id 2 is delivered -/
+example : Delivers W.cfgC W.sB W.pubackBytes (W.okp (W.puback 5 2)) 4 (.ok (W.puback 5 2)) ∧
+    (W.puback 5 2).pid.getD 0 ∈ W.sB.puback :=
+  ⟨⟨{}, 0x40, [0, 1], [], by decide, by decide, by decide, by decide, by decide, rfl⟩, by decide⟩
+/-- `C08_release_on_refusal`: v5.0 PUBLISH QoS 1 with in-use id 3, larger than the peer's
+    Maximum Packet Size (the refusal that kept the id silently before the fix of finding #5) -/
+example :
+    let s := run W.cfgC W.s0 [.send W.connect5, .recv W.connackBytes (W.okp (W.connack5 false [(pMPS, 50)])),
+      .acquire]
+    let p : Pkt := { W.pub1 with pid := some 1 }
+    s.ver = p.ver ∧ roleMaySend W.cfgC.role p = true ∧ (p.kind = .publish ∧ p.qos > 0) ∧
+      p.pid = some 1 ∧ isUsed s 1 = true ∧ errs (step W.cfgC s (.send p)).ev = [eTooLarge] := by decide
+/-- `C08_release_on_close` -/
+example : 1 ∈ W.sB.suback ∧ isUsed W.sB 1 = true ∧ W.sB.needStore = true := by decide
+/-- `C08_PidInv_step_partial`: a legal `release` (id 3 held by the application) in a state with
+    non-empty wait sets and store -/
+example : PidInv (step W.cfgC W.sB .acquire).s ∧ simpleOp (step W.cfgC W.sB .acquire).s (.release 3) = true ∧
+    LegalOp (step W.cfgC W.sB .acquire).s (.release 3) :=
+  ⟨by decide, by decide, by show ¬ owned _ 3; decide⟩
 
 end MqttVerif.Conn
